@@ -45,9 +45,27 @@ import contextlib
 import signal
 
 
+TIMEOUTS = [0]      # how often a time limit fired in this process
+
+
+def give_up(n=4):
+    """True once `n` calls into the package have run out of time: a universe of thousands of inputs is then abandoned
+    (each further input would cost its whole budget) - the violations found so far are reported."""
+    return TIMEOUTS[0] >= n
+
+
 @contextlib.contextmanager
 def time_limit(seconds):
+    # patience shrinks once calls have been timing out: the first ones get the full budget, later ones a tenth
+    if TIMEOUTS[0] >= 25:
+        # thousands of inputs at a full budget each would never end: the rest is not attempted (the check has 25
+        # non-terminating calls to report already)
+        raise Timeout('not attempted: 25 earlier calls into the package ran out of time')
+    if TIMEOUTS[0] >= 3:
+        seconds = max(1.0, seconds / 10.0)
+
     def handler(signum, frame):
+        TIMEOUTS[0] += 1
         raise Timeout('no result after %.1fs' % seconds)
     old = signal.signal(signal.SIGALRM, handler)
     signal.setitimer(signal.ITIMER_REAL, seconds)
